@@ -1,6 +1,8 @@
 (* C15 -- property theorems only.  Each is closed by `exact <lemma>`; statements are pinned in tools/pinned/C15.statements. *)
 From Coq Require Import ZArith List.
 From JV Require Import Gen.ErrorCodesGen Proofs.ErrorCodeFacts.
+From JV Require Import Base.Bytes Base.Dec Base.Utf8 Json.Json Json.JsonSer Json.JsonParse Json.JsonWf Model.Wire.
+From JV Require Import Proofs.JsonFacts Proofs.WireFacts.
 Import ListNotations.
 Local Open Scope Z_scope.
 
@@ -18,3 +20,211 @@ Print Assumptions C15_every_defined_kind_is_canonical.
 
 Example C15_canonical_nonvacuous : canonical KServerIsBusy /\ canonical (KServerError 7) /\ ~ canonical (KServerError (-32700)).
 Proof. cbn. repeat split; try tauto; intro H; repeat (destruct H as [H | H]; [discriminate H |]); try exact H; apply H; tauto. Qed.
+
+(* ================= wire types (Model/Wire.v; proofs in Proofs/WireFacts.v) =================
+   wf_id i        : Id::Number fits u64, Id::Str is UTF-8
+   raw_payload t  : t is one complete JSON value (raw_ok), UTF-8, without leading whitespace -- what a Box<RawValue> holds
+   nonnull t      : t is not the text `null` (Option<RawValue> reads `null` back as None) *)
+
+Theorem C15_raw_payload_ser : forall v : json, wf v = true -> raw_payload (ser v).
+Proof. exact raw_payload_ser. Qed.
+Print Assumptions C15_raw_payload_ser.
+
+Example C15_raw_payload_nonvacuous :
+  raw_payload b#"{""a"":[1,true,null,""x\\y""]}" /\ nonnull b#"{""a"":[1,true,null,""x\\y""]}" /\
+  raw_payload b#"null" /\ ~ nonnull b#"null" /\ ~ raw_payload b#" 1".
+Proof. exact raw_payload_nonvacuous. Qed.
+
+Theorem C15_id_roundtrip : forall i : id, wf_id i -> parse_id (ser_id i) = Some i.
+Proof. exact id_roundtrip. Qed.
+Print Assumptions C15_id_roundtrip.
+
+Example C15_id_roundtrip_nonvacuous :
+  wf_id (IdNum 18446744073709551615) /\ wf_id (IdStr [x61; x22; xc3; xa9; x0a]) /\ wf_id IdNull /\
+  ser_id (IdStr [x61; x22; xc3; xa9; x0a]) = [x22; x61; x5c; x22; xc3; xa9; x5c; x6e; x22] /\
+  parse_id (ser_id (IdNum 18446744073709551616)) = None /\ parse_id (ser_id (IdStr [xff])) = None.
+Proof. exact id_roundtrip_nonvacuous. Qed.
+
+Theorem C15_subid_roundtrip : forall i : subid, wf_subid i -> parse_subid (ser_subid i) = Some i.
+Proof. exact subid_roundtrip. Qed.
+Print Assumptions C15_subid_roundtrip.
+
+Example C15_subid_roundtrip_nonvacuous :
+  wf_subid (SubNum 0) /\ wf_subid (SubStr b#"0xcafe") /\ ser_subid (SubStr b#"0xcafe") = b#"""0xcafe""".
+Proof. exact subid_roundtrip_nonvacuous. Qed.
+
+Theorem C15_errorobject_roundtrip : forall e : errobj,
+  -2147483648 <= e_code e < 2147483648 -> utf8_valid (e_message e) = true ->
+  match e_data e with Some d => raw_payload d /\ nonnull d | None => True end ->
+  parse_errobj (ser_errobj e) = Some e.
+Proof. exact errobj_roundtrip. Qed.
+Print Assumptions C15_errorobject_roundtrip.
+
+Example C15_errorobject_roundtrip_nonvacuous :
+  -2147483648 <= e_code ex_err < 2147483648 /\ utf8_valid (e_message ex_err) = true /\
+  match e_data ex_err with Some d => raw_payload d /\ nonnull d | None => True end /\
+  ser_errobj ex_err = b#"{""code"":-32602,""message"":""Invalid \""params\"""",""data"":{""a"":[1,true,null,""x\\y""]}}".
+Proof. exact errobj_roundtrip_nonvacuous. Qed.
+
+(* data = Some "null" satisfies everything but `nonnull` and does not round-trip (it reads back as None) *)
+Theorem C15_errorobject_data_null_refuted :
+  exists e : errobj, -2147483648 <= e_code e < 2147483648 /\ utf8_valid (e_message e) = true /\
+    match e_data e with Some d => raw_payload d | None => True end /\
+    parse_errobj (ser_errobj e) <> Some e.
+Proof. exact errobj_data_null_refuted. Qed.
+Print Assumptions C15_errorobject_data_null_refuted.
+
+Theorem C15_request_roundtrip : forall r : request,
+  wf_id (rq_id r) -> utf8_valid (rq_method r) = true ->
+  match rq_params r with Some p => raw_payload p /\ nonnull p | None => True end ->
+  parse_request (ser_request r) = Some r.
+Proof. exact request_roundtrip. Qed.
+Print Assumptions C15_request_roundtrip.
+
+Example C15_request_roundtrip_nonvacuous :
+  wf_id (rq_id ex_req) /\ utf8_valid (rq_method ex_req) = true /\
+  match rq_params ex_req with Some p => raw_payload p /\ nonnull p | None => True end /\
+  ser_request ex_req = b#"{""jsonrpc"":""2.0"",""id"":""id-7"",""method"":""say_hello"",""params"":[-5,""two"",{}]}".
+Proof. exact request_roundtrip_nonvacuous. Qed.
+
+Theorem C15_notification_roundtrip : forall (me : bytes) (p : option bytes),
+  utf8_valid me = true ->
+  match p with Some p' => raw_payload p' /\ nonnull p' | None => True end ->
+  parse_notification (ser_notification me p) = Some (me, p).
+Proof. exact notification_roundtrip. Qed.
+Print Assumptions C15_notification_roundtrip.
+
+Example C15_notification_roundtrip_nonvacuous :
+  utf8_valid b#"tick" = true /\ (raw_payload b#"[-5,""two"",{}]" /\ nonnull b#"[-5,""two"",{}]") /\
+  ser_notification b#"tick" (Some b#"[-5,""two"",{}]") = b#"{""jsonrpc"":""2.0"",""method"":""tick"",""params"":[-5,""two"",{}]}" /\
+  ser_notification b#"tick" None = b#"{""jsonrpc"":""2.0"",""method"":""tick"",""params"":null}".
+Proof. exact notification_roundtrip_nonvacuous. Qed.
+
+Theorem C15_response_roundtrip : forall r : response,
+  wf_id (rs_id r) ->
+  match rs_payload r with
+  | PResult raw => raw_payload raw
+  | PError e =>
+    -2147483648 <= e_code e < 2147483648 /\ utf8_valid (e_message e) = true /\
+    match e_data e with Some d => raw_payload d /\ nonnull d | None => True end
+  end ->
+  parse_response (ser_response r) = Some r.
+Proof. exact response_roundtrip. Qed.
+Print Assumptions C15_response_roundtrip.
+
+Example C15_response_roundtrip_nonvacuous :
+  (wf_id (rs_id ex_resp_ok) /\ wf_payload (rs_payload ex_resp_ok)) /\
+  (wf_id (rs_id ex_resp_err) /\ wf_payload (rs_payload ex_resp_err)) /\
+  (wf_id (rs_id ex_resp_bare) /\ wf_payload (rs_payload ex_resp_bare)) /\
+  ser_response ex_resp_ok = b#"{""jsonrpc"":""2.0"",""id"":42,""result"":null}" /\
+  ser_response ex_resp_err =
+    b#"{""jsonrpc"":""2.0"",""id"":null,""error"":{""code"":-32602,""message"":""Invalid \""params\"""",""data"":{""a"":[1,true,null,""x\\y""]}}}" /\
+  ser_response ex_resp_bare = b#"{""id"":""a"",""result"":[-5,""two"",{}]}".
+Proof. exact response_roundtrip_nonvacuous. Qed.
+
+Theorem C15_response_reser_same_bytes : forall r : response,
+  wf_id (rs_id r) ->
+  match rs_payload r with
+  | PResult raw => raw_payload raw
+  | PError e =>
+    -2147483648 <= e_code e < 2147483648 /\ utf8_valid (e_message e) = true /\
+    match e_data e with Some d => raw_payload d /\ nonnull d | None => True end
+  end ->
+  option_map ser_response (parse_response (ser_response r)) = Some (ser_response r).
+Proof. exact response_reser_same_bytes. Qed.
+Print Assumptions C15_response_reser_same_bytes.
+
+Theorem C15_request_reser_same_bytes : forall r : request,
+  wf_id (rq_id r) -> utf8_valid (rq_method r) = true ->
+  match rq_params r with Some p => raw_payload p /\ nonnull p | None => True end ->
+  option_map ser_request (parse_request (ser_request r)) = Some (ser_request r).
+Proof. exact request_reser_same_bytes. Qed.
+Print Assumptions C15_request_reser_same_bytes.
+
+Theorem C15_emitted_response_valid : forall r : response,
+  wf_id (rs_id r) ->
+  match rs_payload r with
+  | PResult raw => raw_payload raw
+  | PError e =>
+    -2147483648 <= e_code e < 2147483648 /\ utf8_valid (e_message e) = true /\
+    match e_data e with Some d => raw_payload d /\ nonnull d | None => True end
+  end ->
+  rs_jsonrpc r = true ->
+  exists m, object_members (ser_response r) = Some m /\
+    field_of k_jsonrpc m = FOne (ser_str v_two) /\ is_two (ser_str v_two) = true /\
+    field_of k_id m = FOne (ser_id (rs_id r)) /\ parse_id (ser_id (rs_id r)) = Some (rs_id r) /\
+    match rs_payload r with
+    | PResult raw => field_of k_result m = FOne raw /\ field_of k_error m = FAbsent
+    | PError e => field_of k_error m = FOne (ser_errobj e) /\ field_of k_result m = FAbsent /\
+                  parse_errobj (ser_errobj e) = Some e
+    end.
+Proof. exact emitted_response_valid. Qed.
+Print Assumptions C15_emitted_response_valid.
+
+(* an emitted response is one complete UTF-8 JSON value *)
+Theorem C15_emitted_response_is_json : forall r : response,
+  wf_id (rs_id r) ->
+  match rs_payload r with
+  | PResult raw => raw_payload raw
+  | PError e =>
+    -2147483648 <= e_code e < 2147483648 /\ utf8_valid (e_message e) = true /\
+    match e_data e with Some d => raw_payload d /\ nonnull d | None => True end
+  end ->
+  raw_payload (ser_response r).
+Proof. exact emitted_response_is_json. Qed.
+Print Assumptions C15_emitted_response_is_json.
+
+Theorem C15_response_accept_iff : forall m : members,
+  parse_response_members m <> None <->
+  (exists i, field_of k_id m = FOne i /\ parse_id i <> None) /\
+  (field_of k_jsonrpc m = FAbsent \/
+   exists s, field_of k_jsonrpc m = FOne s /\ (is_null_span s = true \/ is_two s = true)) /\
+  ((exists r, field_of k_result m = FOne r /\ utf8_valid r = true /\ field_of k_error m = FAbsent) \/
+   (exists e, field_of k_error m = FOne e /\ parse_errobj e <> None /\ field_of k_result m = FAbsent)).
+Proof. exact response_accept_iff. Qed.
+Print Assumptions C15_response_accept_iff.
+
+Theorem C15_response_text_accept_iff : forall t : bytes,
+  parse_response t <> None <-> exists m, object_members t = Some m /\ parse_response_members m <> None.
+Proof. exact response_text_accept_iff. Qed.
+Print Assumptions C15_response_text_accept_iff.
+
+Theorem C15_unknown_members_ignored : forall (m1 : members) (k v : bytes) (m2 : members),
+  ~ In k [k_jsonrpc; k_id; k_result; k_error] ->
+  parse_response_members (m1 ++ (k, v) :: m2) = parse_response_members (m1 ++ m2).
+Proof. exact unknown_members_ignored. Qed.
+Print Assumptions C15_unknown_members_ignored.
+
+Theorem C15_response_dup_rejected : forall (m : members) (k : bytes),
+  In k [k_jsonrpc; k_id; k_result; k_error] -> field_of k m = FDup -> parse_response_members m = None.
+Proof. exact response_dup_rejected. Qed.
+Print Assumptions C15_response_dup_rejected.
+
+Example C15_response_accept_nonvacuous :
+  parse_response b#"{ ""result"" : 2, ""x"":[], ""jsonrpc"":null, ""id"":1 }" <> None /\
+  parse_response b#"{""id"":1,""error"":{""message"":""m"",""code"":-1}}" <> None /\
+  parse_response b#"{""id"":1,""id"":1,""result"":2}" = None /\
+  parse_response b#"{""id"":1,""result"":2,""error"":{""code"":-1,""message"":""m""}}" = None /\
+  parse_response b#"{""jsonrpc"":""1.0"",""id"":1,""result"":2}" = None /\
+  parse_response b#"{""jsonrpc"":""2.0"",""result"":2}" = None /\
+  parse_response b#"{""id"":1.5,""result"":2}" = None /\
+  parse_response b#"{""id"":1,""error"":{""code"":-1,""message"":""m"",""extra"":0}}" = None.
+Proof. exact response_accept_nonvacuous. Qed.
+
+Theorem C15_sub_notif_roundtrip : forall (me : bytes) (sid : subid) (is_err : bool) (raw : bytes),
+  utf8_valid me = true -> wf_subid sid -> raw_payload raw ->
+  parse_sub_notif (if is_err then k_error else k_result) (ser_sub_notif me sid is_err raw) = Some (me, sid, raw).
+Proof. exact sub_notif_roundtrip. Qed.
+Print Assumptions C15_sub_notif_roundtrip.
+
+Theorem C15_sub_notif_kind_distinguished : forall (me : bytes) (sid : subid) (is_err : bool) (raw : bytes),
+  utf8_valid me = true -> wf_subid sid -> raw_payload raw ->
+  parse_sub_notif (if is_err then k_result else k_error) (ser_sub_notif me sid is_err raw) = None.
+Proof. exact sub_notif_kind_distinguished. Qed.
+Print Assumptions C15_sub_notif_kind_distinguished.
+
+Example C15_sub_notif_roundtrip_nonvacuous :
+  utf8_valid b#"sub" = true /\ wf_subid (SubStr b#"0xcafe") /\ raw_payload b#"[-5,""two"",{}]" /\
+  ser_sub_notif b#"sub" (SubStr b#"0xcafe") false b#"[-5,""two"",{}]" =
+    b#"{""jsonrpc"":""2.0"",""method"":""sub"",""params"":{""subscription"":""0xcafe"",""result"":[-5,""two"",{}]}}".
+Proof. exact sub_notif_roundtrip_nonvacuous. Qed.
